@@ -3479,11 +3479,9 @@ impl Server {
             }).unwrap_or(false);
             
             if should_remove {
-                // Check if connection has active subscriptions before cleaning up
-                if self.pubsub.is_subscribed(id) {
-                    // Skip cleanup for connections with active subscriptions
-                    continue;
-                }
+                // A closing connection goes away together with its subscriptions
+                // (unsubscribe_all below): a peer that has disconnected must not keep
+                // counting as a subscriber
                 to_remove.push(id);
             }
         }
